@@ -347,12 +347,53 @@ def _exit_setup(n_infos, n_defs):
 
 
 con = contract("cohdl._compiler.frontend._prepare_ast:ConvertPythonInstance.__exit__", PROPS)
+# the with-statement calls __exit__(None, None, None) after an accepted design and __exit__(type, value, traceback) when the
+# design was REJECTED inside the block: a rejected compilation must not leave its cached definitions behind either
 for n_infos, n_defs in ((0, 0), (1, 1), (2, 3), (0, 2)):
-    c = Case(f"{n_infos}-instantiated-entities,{n_defs}-cached-definitions",
-             [Built([], (lambda n: lambda env: SObj(PA.ConvertPythonInstance, _entity_infos=[SObj(_Info7) for _ in range(n)]))(n_infos), lambda a: "<converter>", lambda a: None),
-              Built([], lambda env: None, lambda a: "None", lambda a: None), Built([], lambda env: None, lambda a: "None", lambda a: None), Built([], lambda env: None, lambda a: "None", lambda a: None)],
-             exit_spec(n_infos, n_defs))
+    for rejected in (False, True):
+        exc = (AssertionError, AssertionError("design rejected"), Opaque("traceback")) if rejected else (None, None, None)
+        c = Case(f"{n_infos}-instantiated-entities,{n_defs}-cached-definitions" + (",design-rejected" if rejected else ""),
+                 [Built([], (lambda n: lambda env: SObj(PA.ConvertPythonInstance, _entity_infos=[SObj(_Info7) for _ in range(n)]))(n_infos), lambda a: "<converter>", lambda a: None)]
+                 + [Built([], (lambda v: lambda env: v)(e), lambda a: "None", lambda a: None) for e in exc],
+                 exit_spec(n_infos, n_defs))
+        c.native = False
+        c.models = [(_inspect.iscoroutine, lambda it, x: isinstance(x, SObj) and x.kind is _Coro7)]
+        c.setup = _exit_setup(n_infos, n_defs)
+        con.cases.append(c)
+
+
+# ---- 8. _ScopeBase._capture_env: the captured names of a function are collected in an order that does not depend on the hash seed --
+# Unnamed objects are named after the first name they are bound to, so the ORDER of the result matters: local names (the
+# parameters among them) and free names come as sets of strings; they must reach the result sorted, never in set iteration order.
+from cohdl._core import _collect_ast_and_scope as CAS8  # noqa: E402
+
+
+def capture_spec(local_names, free_names, found):
+    def spec(sx, self, ln, nn, gd, nd):
+        def holds(res):
+            if not isinstance(res, dict):
+                return False
+            return list(res.keys()) == sorted(local_names) + [n for n in sorted(free_names) if n in found and n not in local_names]
+
+        return C.Pred(holds, "keys: the local names in sorted order, then the resolved free names in sorted order")
+
+    return spec
+
+
+def capture_on_exit(it, ctx, real, rep):
+    bad = [e for e in ctx.events if e[0] == "iter-set-of-str"]
+    ctx.prove(rep.oid("no-set-of-str-iteration"), not bad, events=str(bad)[:160])
+
+
+con = contract("cohdl._core._collect_ast_and_scope:_ScopeBase._capture_env", PROPS)
+for local_names, free_names in (({"north", "south", "east", "west"}, {"helper", "Bit", "len"}), ({"a"}, {"zeta", "alpha"}), (set(), {"len", "alpha", "Mid"}), ({"x", "y", "z"}, set())):
+    found = {"helper": "<fn>", "Bit": "<Bit>", "alpha": 1, "zeta": 2, "Mid": 3}
+    c = Case(f"locals-{'-'.join(sorted(local_names)) or 'none'},free-{'-'.join(sorted(free_names)) or 'none'}",
+             [Built([], lambda env: SObj(CAS8._ScopeBase), lambda a: "None", lambda a: None),
+              Built([], (lambda v: lambda env: set(v))(local_names), lambda a: "None", lambda a: None), Built([], (lambda v: lambda env: set(v))(free_names), lambda a: "None", lambda a: None),
+              Built([], (lambda f: lambda env: {"__builtins__": {"len": len}, **{k: v for k, v in f.items() if k[0].isupper()}})(found), lambda a: "None", lambda a: None),
+              Built([], (lambda f: lambda env: {k: v for k, v in f.items() if not k[0].isupper()})(found), lambda a: "None", lambda a: None)],
+             capture_spec(local_names, free_names, set(found) | {"len"}))
     c.native = False
-    c.models = [(_inspect.iscoroutine, lambda it, x: isinstance(x, SObj) and x.kind is _Coro7)]
-    c.setup = _exit_setup(n_infos, n_defs)
+    c.on_exit = capture_on_exit
     con.cases.append(c)
